@@ -93,11 +93,10 @@ CHECKS.update({
         text='Lean theorems at R show that the closed-form gradient the driver executes is, coordinate by coordinate (HasDerivAt along each '
              'axis), the partial derivative of every CPU kernel and of the whole predictor sum_i c_{l,i} k(x_i,.), through a diagonal feature '
              'matrix end to end, with output-wise linearity (no mixing between outputs), the chain rule for a symmetric matrix, and an exactly '
-             'zero term for a coinciding center; for no transform, a diagonal and a full symmetric transform the joint Frechet derivative of the predictor on R^n is '
-             'proved to be the returned row (C04_full_no_transform, C04_full_diag, C04_full_symm). The real get_function_grads, RFM.get_grads and xRFM.get_grads are compared with these closed '
+             'zero term for a coinciding center; the full statement is proved (C04_full_holds): for every kernel incl. the memory-light one, no transform / vector / symmetric '
+             'matrix, every n and every point in general position the predictor on R^n is Frechet differentiable and the returned row is its gradient. The real get_function_grads, RFM.get_grads and xRFM.get_grads are compared with these closed '
              'forms under a computed allowance, and independently with Richardson finite differences of the real kernel and predict.',
-        note=TB + 'The joint HasFDerivAt statement C04_full is proved for T = none / diagonal / full symmetric (L2, product, Lpq, sum-power, n >= 1); '
-             'for the memory-light kernel only per-coordinate theorems (M none / diagonal) are proved. Exact real arithmetic; rounding (incl. the unmasked self-term cancellation of '
+        note=TB + 'General position as in the property: distance (L2-type kernels) or every coordinate difference (coordinate-wise kernels) at least eps. Exact real arithmetic; rounding (incl. the unmasked self-term cancellation of '
              'the expansion-distance kernels) is absorbed by a computed per-entry allowance. No translator tie (correspondence only). torch '
              'autograd, cdist, solve, SVD are modelled, not verified.',
         technique='Lean 4 + Mathlib calculus (HasDerivAt) over a scalar-generic executable model; float64 correspondence with computed allowance; finite-difference oracle',
